@@ -427,7 +427,7 @@ def r_byte_budget(ck, P, rid, tail=False):
                         size = _ty_bytes(pt) if pt else None
                     elif x.op == 'call' and x.callee in STORE_HELPERS:
                         ptr = x.a[0]; size = STORE_HELPERS[x.callee]
-                    elif x.op == 'call' and x.callee is None and x.d.get('callee') is None:
+                    elif x.op == 'call' and x.callee is None and x.d.get('callee') in (None, ['asm']):
                         asm = True; continue
                     elif x.op == 'call' and isinstance(x.callee, str) and x.callee.startswith('llvm.memcpy'):
                         ptr = x.a[0]; size = int(x.a[2][1]) if x.a[2][0] == 'c' else None
@@ -540,6 +540,14 @@ class _Bits:
                 s = {tuple(v[k]) if isinstance(v[k], tuple) else v[k] for v in vals}
                 out.append(vals[0][k] if len(s) == 1 else None)
             return out
+        if op == 'load' and x.a[0][0] == 'v' and f.by_id[x.a[0][1]].op == 'alloca':
+            # a local that is written exactly once (a vector temporary spilled for an asm operand)
+            al = f.by_id[x.a[0][1]]
+            ptrs = [al] + [y for y in f.users(al) if y.op == 'bitcast']
+            sts = [y for p_ in ptrs for y in f.users(p_) if y.op == 'store' and y.a[1] == ['v', p_.i]]
+            if len(sts) == 1 and f.dominates(sts[0], x):
+                return self.ev(sts[0].a[0], w, depth + 1)
+            return None
         if op in ('zext', 'trunc', 'bitcast', 'freeze'):
             v = self.ev(x.a[0], None, depth + 1)
             if v is None or w is None:
@@ -640,6 +648,23 @@ def r_fill_word(ck, P, rid):
                     if not any(r[0] == 'arg' and r[1] in _ptr_params(f) for r in common.roots(f, x.a[0])):
                         continue
                     val = x.a[1]; wbits = STORE_HELPERS[x.callee] * 8
+                elif x.op == 'call' and x.callee is None and x.d.get('callee') in (None, ['asm']) and x.a and any(r[0] == 'arg' and r[1] in _ptr_params(f) for r in common.roots(f, x.a[0])):
+                    # inline assembly storing vector registers at the row cursor: each 64-bit operand it is given must be the replicated filler
+                    for o in x.a[1:]:
+                        if o[0] != 'v' or _ty_bytes(f.by_id[o[1]].ty) != 8:
+                            continue
+                        bits = B.ev(o, 64)
+                        if bits is None:
+                            continue                # values produced by an earlier asm statement are copies the rule cannot see through
+                        bits = (bits + [0] * 64)[:64]
+                        where = '%s, %d bpp: 64-bit operand of the inline-assembly store at %s' % (f.name, K, x.loc())
+                        bad = [j for j in range(64) if bits[j] != ('in', j % K)]
+                        if bad and (64, K) not in reported:
+                            reported.add((64, K))
+                            ck.violation(R, f.name, '64-bit store for %d bpp' % K, '%s at %d bpp hands its inline-assembly block store a 64-bit value whose bit %d is not filler bit %d: the wide middle of a row is filled with a pixel that was not replicated to the depth, while the scalar head and tail use the replicated one' % (f.name, K, bad[0], bad[0] % K), x.loc())
+                        elif not bad:
+                            ck.ok(R, where)
+                    continue
                 if val is None or wbits < K:
                     continue
                 bits = B.ev(val, wbits)
